@@ -27,17 +27,21 @@ from common import bytes_lit, zlit
 ID = 'C06'
 TECHNIQUE = ('Coq proof over all prior states, batches and crash points of an executable model of the storing code + '
              'correspondence check of the recorded raw file-system operations of the real code against the model')
-LEVEL_TEXT = ('Theorems over Crash.v: for every directory state, request and crash state (every prefix of the operation '
-              'list and every byte-granular tear of a temp-file write) of write_atomic / FileCache._store / '
-              '_store_single_color_tile, and for every raw write sequence on a v1/v2 bundle that satisfies the checked '
-              'discipline raw_ok (append, header rewrite, index entries publishing complete records only), each address '
-              'reads old, complete new, or missing when allowed; other addresses are unchanged.  Tie: real stores traced '
-              'at the raw I/O layer, compared with the model inside Coq; all crash prefixes replayed against the real readers.')
+LEVEL_TEXT = ('Theorems over Crash.v (26 in P_C06.v): for every directory state, request and crash state (every prefix of the '
+              'operation list and every byte-granular tear of a temp-file write) of write_atomic / FileCache._store / '
+              '_store_single_color_tile the stored address reads old, complete new, or missing when the property allows it, and '
+              'addresses the operations do not name are unchanged; for v1/v2 bundles: every raw write sequence that satisfies the '
+              'checked discipline raw_ok (append, header rewrite, aligned index entries that publish complete records only) is '
+              'crash safe for every prior state with the index invariant, the invariant holds initially and is preserved, and the '
+              'program-order models of BundleV1/V2.store_tiles satisfy raw_ok for every batch.  Tie: real stores traced at the '
+              'raw I/O layer and compared with the model inside Coq; every raw prefix replayed against the real readers.')
 LEVEL_NOTE = ('Trusted: Coq kernel, hand-written Crash.v, fstrace interposition and canonicalisation (mkdir/chmod dropped, '
               'contiguous raw writes merged, symlink targets resolved), A1 (process death leaves a prefix of the raw writes; '
-              'temp files, appends and header rewrites tear at any byte, in-place index writes are atomic), CPython buffered '
-              'I/O flush order is observed, not modelled: the theorems quantify over every raw sequence with raw_ok and raw_ok '
-              'is evaluated on each recorded sequence.')
+              'temp files, appends and header rewrites tear at any byte, in-place index writes are atomic; proved: v2 entries '
+              'cannot be torn for any B divisible by 8; proved limits: byte tear of a v2 entry and page tear of v1 slot 1635 '
+              'expose a bad read).  CPython buffered I/O flush order is observed, not modelled: the bundle theorems quantify over '
+              'every raw sequence with raw_ok, and raw_ok is evaluated in Coq on each recorded sequence.  Batches that span '
+              'several bundle files are covered by the oracle only.  Known finding: regular tile replaced by a single colour link.')
 DESIGN_REF = 'DESIGN.md section 5, C06'
 RULE = ('case = one store (pre-state directory, request/batch, recorded raw ops, reads in every crash state); '
         'non-trivial = pre-state has content for some address or the store replaces a link / a record; distinct by '
@@ -692,6 +696,7 @@ Definition v2_check (c : ''' + V2_CASE_TYPE + ''') : bool :=
   let fm := bw_apply_all f0 m in
   let fr := bw_apply_all f0 ops in
   v2_raw_ok b L0 f0 ops && v2_raw_ok b L0 f0 m &&
+  forallb (fun w => forallb (fun x => 0 <=? x) (snd w)) ops &&
   forallb (v2_slot_ok f0) slots &&
   list_eqb bw_eqb (no_hdr (bw_merge m)) (no_hdr (bw_merge ops)) &&
   (flen fm =? flen fr) && zlist_eqb (fread_from fm 0 64) (fread_from fr 0 64) &&
@@ -730,6 +735,7 @@ Definition v1_check (c : ''' + V1_CASE_TYPE + ''') : bool :=
   let sm := v1_apply_all s0 m in
   let sr := v1_apply_all s0 ops in
   v1_raw_ok b L0 s0 ops && v1_raw_ok b L0 s0 m &&
+  forallb (fun o => match o with WD _ d => forallb (fun x => 0 <=? x) d | WI _ d => forallb (fun x => 0 <=? x) d end) ops &&
   forallb (v1_slot_ok s0) slots &&
   list_eqb bw_eqb (bw_merge (dat_writes m)) (bw_merge (dat_writes ops)) &&
   (flen (v1dat sm) =? flen (v1dat sr)) && (flen (v1idx sm) =? flen (v1idx sr)) &&
